@@ -26,6 +26,7 @@ var props = map[string]func(*Ctx){
 	"C10": propC10,
 	"C11": propC11,
 	"C12": propC12,
+	"C17": propC17,
 }
 
 type multiFlag []string
